@@ -167,3 +167,16 @@ package codegen
 //@ family schemagetter [C16]
 //@   pure
 //@   ensures calls(Schema) == 0
+
+// args.gotpl: field_T_f_args. C02: any argument that cannot be coerced makes the whole function fail and NO
+// argument map is handed on (so the field function does not run the resolver: family `field`, argErr clause).
+//@ family fieldargs [C02]
+//@   ensures res1 != nil ==> res0 == nil
+//@   ensures res1 == nil ==> res0 != nil
+
+// input.gotpl: unmarshalInput<T>. C02 omitted-vs-null: the incoming map is copied entry by entry (it is never
+// written), and a schema default is injected ONLY for a key that is absent - an explicit null stays null.
+// Every field unmarshal error is returned.
+//@ family unmarshalinput [C02]
+//@   at `assign asMap[k]` requires rhs0 == v
+//@   at `assign asMap[*]` requires !present
